@@ -4,7 +4,8 @@ import vlib
 from props import common
 
 THM = "NextestModel.Thm.C06"
-GEN = []
+GEN = ["tables"]
+GEN_GROUPS = ["retries"]
 TRUSTED = ["model: Model/Settings (extend_reverse/reverse/chain bookkeeping, TestSettings::new, profile-level getters)",
            "platform-spec truth (target-spec) and filter truth (C05) are inputs computed from fixed tables by the generator",
            "the `config` crate's key-wise layering of files is modelled by profileLevel and validated by the correspondence only"]
